@@ -556,3 +556,172 @@ Proof.
   split; [exact H1|]. split; [|exact H3]. intros Hm. exists (ZERO n). rewrite (H2 Hm).
   split; [reflexivity|]. split; [apply wf_ZERO; lia | apply sval_ZERO; auto].
 Qed.
+
+(* ---------- checked forms: never a panic ---------- *)
+
+Theorem I_checked_div_ok dbg w n a b :
+  0 < w -> U_div_rem_spec w -> (0 < n)%nat -> wf w n a -> wf w n b ->
+  (sval w b = 0 \/ min_neg_one w n a b -> I_checked_div dbg w a b = Ret None) /\
+  (sval w b <> 0 -> ~ min_neg_one w n a b ->
+     exists x, I_checked_div dbg w a b = Ret (Some x) /\ wf w n x /\
+       sval w x = Z.quot (sval w a) (sval w b)).
+Proof.
+  intros Hw HS Hn Ha Hb. unfold I_checked_div.
+  eapply ocheck_of_ovf; eauto. apply I_overflowing_div_ovf; auto.
+Qed.
+
+Theorem I_checked_rem_ok dbg w n a b :
+  0 < w -> U_div_rem_spec w -> (0 < n)%nat -> wf w n a -> wf w n b ->
+  (sval w b = 0 \/ min_neg_one w n a b -> I_checked_rem dbg w a b = Ret None) /\
+  (sval w b <> 0 -> ~ min_neg_one w n a b ->
+     exists x, I_checked_rem dbg w a b = Ret (Some x) /\ wf w n x /\
+       sval w x = Z.rem (sval w a) (sval w b)).
+Proof.
+  intros Hw HS Hn Ha Hb. unfold I_checked_rem.
+  eapply ocheck_of_ovf; eauto. apply I_overflowing_rem_ovf; auto.
+Qed.
+
+Theorem I_checked_div_euclid_ok dbg w n a b :
+  0 < w -> U_div_rem_spec w -> (0 < n)%nat -> wf w n a -> wf w n b ->
+  (sval w b = 0 \/ min_neg_one w n a b -> I_checked_div_euclid dbg w a b = Ret None) /\
+  (sval w b <> 0 -> ~ min_neg_one w n a b ->
+     exists x, I_checked_div_euclid dbg w a b = Ret (Some x) /\ wf w n x /\
+       sval w x = ediv (sval w a) (sval w b)).
+Proof.
+  intros Hw HS Hn Ha Hb. unfold I_checked_div_euclid.
+  eapply ocheck_of_ovf; eauto. apply I_overflowing_div_euclid_ovf; auto.
+Qed.
+
+Theorem I_checked_rem_euclid_ok dbg w n a b :
+  0 < w -> U_div_rem_spec w -> (0 < n)%nat -> wf w n a -> wf w n b ->
+  (sval w b = 0 \/ min_neg_one w n a b -> I_checked_rem_euclid dbg w a b = Ret None) /\
+  (sval w b <> 0 -> ~ min_neg_one w n a b ->
+     exists x, I_checked_rem_euclid dbg w a b = Ret (Some x) /\ wf w n x /\
+       sval w x = erem (sval w a) (sval w b)).
+Proof.
+  intros Hw HS Hn Ha Hb. unfold I_checked_rem_euclid.
+  eapply ocheck_of_ovf; eauto. apply I_overflowing_rem_euclid_ovf; auto.
+Qed.
+
+(* ---------- wrapping forms ---------- *)
+
+Theorem I_wrapping_div_ok dbg w n a b :
+  0 < w -> U_div_rem_spec w -> (0 < n)%nat -> wf w n a -> wf w n b ->
+  (sval w b = 0 -> I_wrapping_div dbg w a b = Panic) /\
+  (min_neg_one w n a b -> SRet w n (I_wrapping_div dbg w a b) (- (Mod w n / 2))) /\
+  (sval w b <> 0 -> ~ min_neg_one w n a b ->
+     SRet w n (I_wrapping_div dbg w a b) (Z.quot (sval w a) (sval w b))).
+Proof.
+  intros Hw HS Hn Ha Hb. unfold I_wrapping_div.
+  eapply wrap_of_ovf. apply I_overflowing_div_ovf; auto.
+Qed.
+
+Theorem I_wrapping_rem_ok dbg w n a b :
+  0 < w -> U_div_rem_spec w -> (0 < n)%nat -> wf w n a -> wf w n b ->
+  (sval w b = 0 -> I_wrapping_rem dbg w a b = Panic) /\
+  (min_neg_one w n a b -> SRet w n (I_wrapping_rem dbg w a b) 0) /\
+  (sval w b <> 0 -> ~ min_neg_one w n a b ->
+     SRet w n (I_wrapping_rem dbg w a b) (Z.rem (sval w a) (sval w b))).
+Proof.
+  intros Hw HS Hn Ha Hb. unfold I_wrapping_rem.
+  eapply wrap_of_ovf. apply I_overflowing_rem_ovf; auto.
+Qed.
+
+Theorem I_wrapping_div_euclid_ok dbg w n a b :
+  0 < w -> U_div_rem_spec w -> (0 < n)%nat -> wf w n a -> wf w n b ->
+  (sval w b = 0 -> I_wrapping_div_euclid dbg w a b = Panic) /\
+  (min_neg_one w n a b -> SRet w n (I_wrapping_div_euclid dbg w a b) (- (Mod w n / 2))) /\
+  (sval w b <> 0 -> ~ min_neg_one w n a b ->
+     SRet w n (I_wrapping_div_euclid dbg w a b) (ediv (sval w a) (sval w b))).
+Proof.
+  intros Hw HS Hn Ha Hb. unfold I_wrapping_div_euclid.
+  eapply wrap_of_ovf. apply I_overflowing_div_euclid_ovf; auto.
+Qed.
+
+Theorem I_wrapping_rem_euclid_ok dbg w n a b :
+  0 < w -> U_div_rem_spec w -> (0 < n)%nat -> wf w n a -> wf w n b ->
+  (sval w b = 0 -> I_wrapping_rem_euclid dbg w a b = Panic) /\
+  (min_neg_one w n a b -> SRet w n (I_wrapping_rem_euclid dbg w a b) 0) /\
+  (sval w b <> 0 -> ~ min_neg_one w n a b ->
+     SRet w n (I_wrapping_rem_euclid dbg w a b) (erem (sval w a) (sval w b))).
+Proof.
+  intros Hw HS Hn Ha Hb. unfold I_wrapping_rem_euclid.
+  eapply wrap_of_ovf. apply I_overflowing_rem_euclid_ovf; auto.
+Qed.
+
+(* MIN mod 1 = 0: the wrapping Euclidean remainder is SA mod |SB| for every nonzero divisor *)
+Lemma erem_min_neg_one x : erem x (-1) = 0.
+Proof. unfold erem. change (Z.abs (-1)) with 1. apply Z.mod_1_r. Qed.
+
+Corollary I_wrapping_rem_euclid_total dbg w n a b :
+  0 < w -> U_div_rem_spec w -> (0 < n)%nat -> wf w n a -> wf w n b -> sval w b <> 0 ->
+  SRet w n (I_wrapping_rem_euclid dbg w a b) (erem (sval w a) (sval w b)).
+Proof.
+  intros Hw HS Hn Ha Hb Hnz.
+  destruct (I_wrapping_rem_euclid_ok dbg w n a b Hw HS Hn Ha Hb) as (_ & Hm & Hok).
+  destruct (mno_dec w n a b) as [E|E]; [|auto].
+  destruct E as [E1 E2]. rewrite E2, erem_min_neg_one. apply Hm. split; assumption.
+Qed.
+
+(* ---------- saturating_div ---------- *)
+
+Theorem I_saturating_div_ok dbg w n a b :
+  0 < w -> U_div_rem_spec w -> (0 < n)%nat -> wf w n a -> wf w n b ->
+  (sval w b = 0 -> I_saturating_div dbg w a b = Panic) /\
+  (min_neg_one w n a b -> I_saturating_div dbg w a b = Ret (IMAX w n)) /\
+  (sval w b <> 0 -> ~ min_neg_one w n a b ->
+     SRet w n (I_saturating_div dbg w a b) (Z.quot (sval w a) (sval w b))).
+Proof.
+  intros Hw HS Hn Ha Hb. unfold I_saturating_div. rewrite (wf_length _ _ _ Ha).
+  destruct (I_overflowing_div_ok dbg w n a b Hw HS Hn Ha Hb) as (H1 & H2 & H3).
+  split; [|split].
+  - intros E. rewrite (H1 E). reflexivity.
+  - intros E. rewrite (H2 E). reflexivity.
+  - intros Hnz Hno. destruct (H3 Hnz Hno) as (q & -> & Hq & Hv). exists q. cbn [omap snd fst]. auto.
+Qed.
+
+(* ---------- div_euclid / rem_euclid: panic exactly on a zero divisor or MIN / -1 ---------- *)
+
+Theorem I_div_euclid_ok dbg w n a b :
+  0 < w -> U_div_rem_spec w -> (0 < n)%nat -> wf w n a -> wf w n b ->
+  (sval w b = 0 \/ min_neg_one w n a b -> I_div_euclid dbg w a b = Panic) /\
+  (sval w b <> 0 -> ~ min_neg_one w n a b ->
+     SRet w n (I_div_euclid dbg w a b) (ediv (sval w a) (sval w b))).
+Proof.
+  intros Hw HS Hn Ha Hb. unfold I_div_euclid. cbv zeta. rewrite (wf_length _ _ _ Ha).
+  destruct (I_wrapping_div_euclid_ok dbg w n a b Hw HS Hn Ha Hb) as (H1 & _ & H3). split.
+  - intros [Hz | Hm].
+    + rewrite (H1 Hz). destruct (_ && _); reflexivity.
+    + rewrite (mno_test_true w n a b) by auto. reflexivity.
+  - intros Hnz Hno. rewrite (mno_test_false w n a b) by auto. auto.
+Qed.
+
+Theorem I_rem_euclid_ok dbg w n a b :
+  0 < w -> U_div_rem_spec w -> (0 < n)%nat -> wf w n a -> wf w n b ->
+  (sval w b = 0 \/ min_neg_one w n a b -> I_rem_euclid dbg w a b = Panic) /\
+  (sval w b <> 0 -> ~ min_neg_one w n a b ->
+     SRet w n (I_rem_euclid dbg w a b) (erem (sval w a) (sval w b))).
+Proof.
+  intros Hw HS Hn Ha Hb. unfold I_rem_euclid. cbv zeta. rewrite (wf_length _ _ _ Ha).
+  destruct (I_wrapping_rem_euclid_ok dbg w n a b Hw HS Hn Ha Hb) as (H1 & _ & H3). split.
+  - intros [Hz | Hm].
+    + rewrite (H1 Hz). destruct (_ && _); reflexivity.
+    + rewrite (mno_test_true w n a b) by auto. reflexivity.
+  - intros Hnz Hno. rewrite (mno_test_false w n a b) by auto. auto.
+Qed.
+
+(* the Euclidean pair, combined: q * SB + r = SA with 0 <= r < |SB| *)
+Corollary I_euclid_pair dbg w n a b :
+  0 < w -> U_div_rem_spec w -> (0 < n)%nat -> wf w n a -> wf w n b ->
+  sval w b <> 0 -> ~ min_neg_one w n a b ->
+  exists q r, I_div_euclid dbg w a b = Ret q /\ I_rem_euclid dbg w a b = Ret r /\
+    wf w n q /\ wf w n r /\
+    sval w q * sval w b + sval w r = sval w a /\ 0 <= sval w r < Z.abs (sval w b).
+Proof.
+  intros Hw HS Hn Ha Hb Hnz Hno.
+  destruct (I_div_euclid_ok dbg w n a b Hw HS Hn Ha Hb) as (_ & Hq).
+  destruct (I_rem_euclid_ok dbg w n a b Hw HS Hn Ha Hb) as (_ & Hr).
+  destruct (Hq Hnz Hno) as (q & Eq & Hwq & Hvq). destruct (Hr Hnz Hno) as (r & Er & Hwr & Hvr).
+  exists q, r. rewrite Hvq, Hvr. pose proof (euclid_spec (sval w a) (sval w b) Hnz) as [E1 E2].
+  repeat (split; [assumption|]). exact E2.
+Qed.
